@@ -235,7 +235,7 @@ CLAIMS = {
         text="Static check of the strategy-built bins: n_bins() and build() of the shared EquiSpaced builder use the same edge formula "
              "operation for operation (extracted from MIR as functions of their loop counters), build iterates 0..=n_bins(), edge(0)=min, "
              "equal widths (CAS); every builder is constructed under the guard width>0 ∧ min<max; strategies pass a.min()/a.max() in order "
-             "and delegate; error rows. With the loop's exit test `edge(n) <= max` and the +1 counter this gives, in exact arithmetic, "
+             "and delegate; error rows; every generic division of the constructors has a divisor ≥ 1 by interval evaluation over len(a) ≥ 1 (R33: no integer division by zero where Err(Strategy) is promised). With the loop's exit test `edge(n) <= max` and the +1 counter this gives, in exact arithmetic, "
              "last edge > max and ≤ max + width. Necessary conditions of the property; float rounding of the edges and termination for "
              "widths below one ulp are not decided."
              " Result integrity (R30): what each routine hands back is the value its verified core computed – on every success path, with nothing applied afterwards, and reached for every argument in the property's range (guard direction R31, termination of the cursor loops R32 where applicable); see DESIGN §7.x for the mutation sweeps that motivated these clauses.",
